@@ -40,6 +40,7 @@ def opSigners (op : Op) : List Addr := (stepInfo op true).signers
 def opEffectiveSigners (s : State) : Op → List Addr
   | .write _ _ _ sg | .delete _ sg | .updvo _ _ sg | .migrate _ _ sg => effectiveSigners s sg
   | .send frm _ _ => [frm]
+  | .mwithdraw _ admin _ _ => [admin]
   | _ => []
 
 /-- One successful operation: the invariant is kept and every holder change is a `GoodStep`
@@ -53,6 +54,7 @@ theorem exec_step {s s' : State} {op : Op} (hinv : Inv s) (h : exec s op = .ok s
   | updvo ids vo sg => obtain ⟨h1, h2, _⟩ := updvo_step hinv h; exact ⟨h1, h2⟩
   | migrate ex pr sg => obtain ⟨h1, h2, _⟩ := migrate_step hinv h; exact ⟨h1, h2⟩
   | send frm to ids => obtain ⟨h1, h2, _⟩ := send_step hinv h; exact ⟨h1, h2⟩
+  | mwithdraw mk ad to ids => obtain ⟨h1, h2, _⟩ := mwithdraw_step hinv h; exact ⟨h1, h2⟩
   | grant gr ge mt c =>
     simp [exec] at h; subst h
     exact ⟨inv_of_ledger_scopes_eq hinv rfl rfl, goodStep_of_ledger_eq _ _ rfl⟩
@@ -72,6 +74,7 @@ theorem exec_step_signers {s s' : State} {op : Op} (hinv : Inv s) (h : exec s op
   have hg := (exec_step hinv h).2
   cases op with
   | send frm to ids => exact hg
+  | mwithdraw mk ad to ids => exact hg
   | write id owners vo sg => exact hg.mono (opEffectiveSigners_sub s _) (by simp [opKind, stepInfo])
   | delete id sg => exact hg.mono (opEffectiveSigners_sub s _) (by simp [opKind, stepInfo])
   | updvo ids vo sg => exact hg.mono (opEffectiveSigners_sub s _) (by simp [opKind, stepInfo])
@@ -171,6 +174,7 @@ theorem supply_changes_only_by_write_delete {s s' : State} (hinv : Inv s) (op : 
   | updvo ids vo sg => exact (updvo_step hinv h).2.2 d
   | migrate ex pr sg => exact (migrate_step hinv h).2.2 d
   | send frm to ids => exact (send_step hinv h).2.2 d
+  | mwithdraw mk ad to ids => exact (mwithdraw_step hinv h).2.2 d
   | grant gr ge mt c => simp [exec] at h; subst h; rfl
   | revoke gr ge mt => rw [(deleteGrant_eq h).1]
   | access m a ps => rw [(setAccess_eq h).1]
@@ -320,6 +324,7 @@ theorem env_ops_move_nothing {s s' : State} (op : Op) (hk : opKind op = .env) (h
   | updvo ids vo sg => simp [opKind, stepInfo] at hk
   | migrate ex pr sg => simp [opKind, stepInfo] at hk
   | send frm to ids => simp [opKind, stepInfo] at hk
+  | mwithdraw mk ad to ids => simp [opKind, stepInfo] at hk
 
 /-! ## The checker run on the implementation is the conjunction of the above
 
@@ -370,6 +375,12 @@ theorem authorises_of_consents {s : State} {ids : List ScopeId} {st : StepInfo} 
   cases hk : st.kind with
   | send => rw [hk] at hc; simp only [Consents] at hc; simp [hc]
   | env => rw [hk] at hc; exact absurd hc (by simp [Consents])
+  | mwithdraw =>
+    rw [hk] at hc
+    obtain ⟨m, hm, x, hx, h1⟩ := hc
+    have : (observe s ids).markers.find? (fun m => m.addr = h) = some m := hm
+    simp only [this, List.any_eq_true]
+    exact ⟨x, hx, h1⟩
   | msg mt =>
     rw [hk] at hc
     simp only [Bool.or_eq_true]
@@ -509,6 +520,7 @@ theorem step_ok {s : State} (hinv : Inv s) (op : Op) (ids : List ScopeId) :
       | updvo _ _ _ => simp [deleteOne, stepInfo]
       | migrate _ _ _ => simp [deleteOne, stepInfo]
       | send _ _ _ => simp [deleteOne, stepInfo]
+      | mwithdraw _ _ _ _ => simp [deleteOne, stepInfo]
       | grant _ _ _ _ => simp [deleteOne, stepInfo]
       | revoke _ _ _ => simp [deleteOne, stepInfo]
       | access _ _ _ => simp [deleteOne, stepInfo]
@@ -557,6 +569,11 @@ example : holder (run {} [.write "s1" ["A"] "C" ["A"], .access "MR" "C" [.deposi
     .migrate "MR" "E" ["C"]]) "s1" = some (some "MR") := by decide
 example : holder (run {} [.write "s1" ["A"] "C" ["A"], .access "MR" "C" [.deposit], .send "C" "MR" ["s1"],
     .access "MR" "B" [.withdraw], .migrate "MR" "E" ["B"]]) "s1" = some (some "E") := by decide
+/-- the marker module's own MsgWithdraw is a fifth message that moves a marker-held token: same rule -/
+example : holder (run {} [.write "s1" ["A"] "C" ["A"], .access "MR" "C" [.deposit], .send "C" "MR" ["s1"],
+    .mwithdraw "MR" "C" "E" ["s1"]]) "s1" = some (some "MR") := by decide
+example : holder (run {} [.write "s1" ["A"] "C" ["A"], .access "MR" "C" [.deposit, .withdraw], .send "C" "MR" ["s1"],
+    .mwithdraw "MR" "C" "E" ["s1"]]) "s1" = some (some "E") := by decide
 /-- delete burns; a contract as first signer hides the other signers -/
 example : (run {} [.write "s1" ["A"] "C" ["A"], .delete "s1" ["A", "C"]]).ledger.supply "s1" = 0 := by decide
 example : holder (run {} [.write "s1" ["A"] "C" ["A"], .updvo ["s1"] "D" ["K", "C"]]) "s1" = some (some "C") := by decide
